@@ -27,6 +27,15 @@ def checker(ctx, exact=True) -> ptcheck.Checker:
 
 def huge_case(rng: random.Random):
     """repetition counts 10^6 .. 10^12 around short (decimal) pieces: any accumulation of rounding shows"""
+    for _ in range(20):
+        try:
+            return _huge_case(rng)
+        except Exception:   # noqa -- an ill-formed draw (e.g. unused loop index): draw again
+            continue
+    raise core.MachineryError('could not draw a huge-count case')
+
+
+def _huge_case(rng: random.Random):
     g = ptgen.Gen(rng, 2, stream=rng.choice(['decimal', 'dyadic']), measure_p=0.0)
     env, values = g.params()
     body = g.template(rng.choice([1, 2]), ['A'], env)
